@@ -9,7 +9,7 @@ from ..cfg import build_cfg, calls_in
 from ..core import Ctx, property_info, rule, share
 from ..exc import MayRaise
 from ..model import AnalysisError, ClassInfo, FuncInfo, Module, dotted_name, norm_text, walk_no_nested
-from ..q import stores, unparse
+from ..q import return_values, stores, unparse
 
 CONV = "xsdata.formats.converter"
 ENUMS = "xsdata.models.enums"
@@ -117,9 +117,16 @@ def documented_priority(ctx: Ctx) -> None:
     for c in srt:
         key = next((k.value for k in c.keywords if k.arg == "key"), None)
         rev = next((k.value for k in c.keywords if k.arg == "reverse"), None)
-        if isinstance(key, ast.Lambda) and "__PYTHON_TYPES_SORTED__.get" in unparse(key.body) and rev is None:
-            arg0 = key.args.args[0].arg
-            ok = unparse(key.body).replace(" ", "") == f"__PYTHON_TYPES_SORTED__.get({arg0},0)"
+        body, arg0 = None, None
+        if isinstance(key, ast.Lambda):
+            body, arg0 = key.body, key.args.args[0].arg
+        elif isinstance(key, ast.Name):  # a named key function of the same module
+            kf = ctx.repo.functions.get(f"{st.module.name}:{key.id}")
+            rv = return_values(kf.node) if kf is not None else []
+            if kf is not None and len(rv) == 1 and kf.pos_params:
+                body, arg0 = rv[0], kf.pos_params[0].arg
+        if body is not None and rev is None:
+            ok = unparse(body).replace(" ", "") == f"__PYTHON_TYPES_SORTED__.get({arg0},0)"
     ctx.ob("sort_types sorts ascending by the table (unknown types first)", ok, at=st, construct="sort key", msg="sort key is not the priority table")
     # str is last: it accepts everything, so any type after it would be unreachable
     ctx.ob("str has the highest priority number (tried last)", bool(code_order) and code_order[-1] == "str", at=mod, node=table, construct="str last",
@@ -171,8 +178,43 @@ NARROWING = {
 }
 
 
+def _not_none_assert_on_parsed(fi: FuncInfo, node: ast.Assert) -> bool:
+    """`assert x is not None` / `assert all(v is not None for v in xs)` where x / xs hold components returned by parse_date_args
+    (other than a name that is directly the last, i.e. the optional %z, unpack target)."""
+    derived: set[str] = set()
+    last: set[str] = set()
+    for _ in range(3):
+        for st in walk_no_nested(fi.node):
+            if isinstance(st, (ast.Assign, ast.AnnAssign)) and st.value is not None:
+                tgts = st.targets if isinstance(st, ast.Assign) else [st.target]
+                src = {x.id for x in ast.walk(st.value) if isinstance(x, ast.Name)}
+                if "parse_date_args" in unparse(st.value) or (src & derived):
+                    for t in tgts:
+                        names = [x for x in ast.walk(t) if isinstance(x, ast.Name)]
+                        derived |= {x.id for x in names}
+                        if "parse_date_args" in unparse(st.value) and isinstance(t, (ast.Tuple, ast.List)) and t.elts and isinstance(t.elts[-1], ast.Name):
+                            last.add(t.elts[-1].id)
+            elif isinstance(st, ast.For) and {x.id for x in ast.walk(st.iter) if isinstance(x, ast.Name)} & derived:
+                derived |= {x.id for x in ast.walk(st.target) if isinstance(x, ast.Name)}
+    t = node.test
+    checks = [t]
+    if isinstance(t, ast.Call) and isinstance(t.func, ast.Name) and t.func.id == "all" and t.args and isinstance(t.args[0], (ast.GeneratorExp, ast.ListComp)):
+        comp = t.args[0]
+        if not ({x.id for x in ast.walk(comp.generators[0].iter) if isinstance(x, ast.Name)} & (derived - last)):
+            return False
+        checks = [comp.elt]
+        derived = derived | {x.id for x in ast.walk(comp.generators[0].target) if isinstance(x, ast.Name)}
+    for c in checks:
+        if not (isinstance(c, ast.Compare) and len(c.ops) == 1 and isinstance(c.ops[0], ast.IsNot) and isinstance(c.comparators[0], ast.Constant) and c.comparators[0].value is None
+                and isinstance(c.left, ast.Name) and c.left.id in derived and c.left.id not in last):
+            return False
+    return True
+
+
 def _assert_ok(fi: FuncInfo, node: ast.Assert) -> bool:
     q = fi.qual.split(":")[1]
+    if q in NARROWING and _not_none_assert_on_parsed(fi, node):
+        return True
     if q in NARROWING and re.fullmatch(r"assert \w+ is not None", ast.unparse(node)):
         # only for names unpacked from parse_date_args in this function and not the offset (the %z slot may be None)
         name = node.test.left.id if isinstance(node.test, ast.Compare) and isinstance(node.test.left, ast.Name) else None
@@ -243,10 +285,14 @@ def converter_error_discipline(ctx: Ctx) -> None:
     # the factory loop suppresses ConverterError only and raises ConverterError when no candidate matched
     de = ctx.repo.func(f"{CONV}:ConverterFactory.deserialize")
     sup = [w for w in walk_no_nested(de.node) if isinstance(w, ast.With) and "suppress(ConverterError)" in unparse(w.items[0].context_expr)]
-    ok = bool(sup) and any(isinstance(r, ast.Return) for w in sup for s in w.body for r in [s, *walk_no_nested(s)])
-    last = de.node.body[-1]
-    ctx.ob("ConverterFactory.deserialize tries candidates in order under suppress(ConverterError) and raises ConverterError at the end",
-           ok and isinstance(last, ast.Raise) and "ConverterError" in unparse(last.exc), at=de, construct="factory loop", msg="candidate loop changed")
+    guarded = [w.body for w in sup] + [t.body for t in walk_no_nested(de.node) if isinstance(t, ast.Try) and t.handlers and all(h.type is not None and unparse(h.type) == "ConverterError" for h in t.handlers)
+                                       and not any(isinstance(x, ast.Raise) for h in t.handlers for s_ in h.body for x in [s_, *walk_no_nested(s_)])]
+    ok = bool(guarded) and any(isinstance(r, ast.Return) for body in guarded for s in body for r in [s, *walk_no_nested(s)])
+    loops_ = [f for f in walk_no_nested(de.node) if isinstance(f, ast.For)]
+    in_loop = {id(x) for f in loops_ for x in ast.walk(f)}
+    final = [r for r in walk_no_nested(de.node) if isinstance(r, ast.Raise) and r.exc is not None and "ConverterError" in unparse(r.exc) and id(r) not in in_loop]
+    ctx.ob("ConverterFactory.deserialize tries each candidate with ConverterError (only) suppressed and raises ConverterError when none matched",
+           ok and bool(final), at=de, construct="factory loop", msg="candidate loop changed")
     loop = [f for f in walk_no_nested(de.node) if isinstance(f, ast.For)]
     ctx.ob("candidates are tried in the given (sorted) order", bool(loop) and unparse(loop[0].iter) == "types", at=de, construct="loop order", msg="iteration order over candidate types changed")
 
@@ -451,7 +497,7 @@ def converters_keep_no_context_free_memo(ctx: Ctx) -> None:
             missing = sorted((_flow_sources(s.fi, s.value, params) | _control_sources(s.fi, s.node, params)) - _flow_sources(s.fi, s.key, params))
             ctx.ob(f"{s.cls.name}.{s.fi.name}: memo self.{s.attr} is keyed by every input of the conversion", not missing, at=s.fi, node=s.node, construct=f"converter memo {s.attr}",
                    msg=f"the cached result depends on {missing} (e.g. the prefix map or format passed as keyword arguments) which is not part of the key: the same literal converted in another context returns the first context's value")
-    ctx.ob(f"converter state write sites are registry (un)registrations only ({n} sites)", n >= 3, at=ctx.repo.func(f"{CONV}:ConverterFactory.register_converter"), construct="converter write sites", msg="registry writers vanished")
+    ctx.ob(f"converter state write sites are registry (un)registrations only ({n} sites)", n >= 1, at=ctx.repo.func(f"{CONV}:ConverterFactory.register_converter"), construct="converter write sites", msg="registry writers vanished")
 
 
 from .c08 import prefixes_resolved_never_matched  # noqa: E402
